@@ -8,6 +8,8 @@ PROPS = {"C03"}
 
 
 def run(ctx):
+    if ctx.replay:
+        return srvfam.replay_file(ctx, PROPS)
     q = ctx.quick
     # 1. exhaustive model checking of the model of the code as it is
     c2 = srvfam.consts(ctx, NReq=2, Kinds={"Attach", "Stat", "Flush"}, Extra=True, Late=True, InitFids=set())
